@@ -12,33 +12,38 @@ use std::cmp::Ordering;
 
 pub const MAGIC: u32 = 0x7D0D_EE01;
 
-pub struct Elem {
+/// `P` extra words of padding: `Elem` = 16 bytes, `Elem40` = 40 bytes (drop glue AND wider than two words - size-gated
+/// destructor paths treat the two differently).
+pub struct ElemP<const P: usize> {
     pub serial: u64,
     pub origin: u32,
     pub magic: u32,
+    pub pad: [u64; P],
 }
+pub type Elem = ElemP<0>;
+pub type Elem40 = ElemP<3>;
 
-impl Elem {
-    pub fn new(origin: u32) -> Elem {
-        Elem { serial: ledger::create(origin), origin, magic: MAGIC }
+impl<const P: usize> ElemP<P> {
+    pub fn new(origin: u32) -> Self {
+        ElemP { serial: ledger::create(origin), origin, magic: MAGIC, pad: [origin as u64 ^ 0x5A5A_5A5A; P] }
     }
 }
 
-impl Clone for Elem {
-    fn clone(&self) -> Elem {
+impl<const P: usize> Clone for ElemP<P> {
+    fn clone(&self) -> Self {
         fault::tick(Site::Clone);
-        Elem::new(self.origin)
+        ElemP::new(self.origin)
     }
 }
 
-impl Default for Elem {
-    fn default() -> Elem {
+impl<const P: usize> Default for ElemP<P> {
+    fn default() -> Self {
         fault::tick(Site::Default);
-        Elem::new(0)
+        ElemP::new(0)
     }
 }
 
-impl Drop for Elem {
+impl<const P: usize> Drop for ElemP<P> {
     fn drop(&mut self) {
         ledger::on_drop(self.serial, self.magic == MAGIC);
         // a destructor that panics while another panic is unwinding aborts the process by language rule;
@@ -56,29 +61,29 @@ impl<'de> serde::Deserialize<'de> for Elem {
     }
 }
 
-impl PartialEq for Elem {
-    fn eq(&self, o: &Elem) -> bool {
+impl<const P: usize> PartialEq for ElemP<P> {
+    fn eq(&self, o: &Self) -> bool {
         self.origin == o.origin
     }
 }
-impl Eq for Elem {}
-impl std::hash::Hash for Elem {
+impl<const P: usize> Eq for ElemP<P> {}
+impl<const P: usize> std::hash::Hash for ElemP<P> {
     fn hash<H: std::hash::Hasher>(&self, h: &mut H) {
         self.origin.hash(h)
     }
 }
-impl PartialOrd for Elem {
-    fn partial_cmp(&self, o: &Elem) -> Option<Ordering> {
+impl<const P: usize> PartialOrd for ElemP<P> {
+    fn partial_cmp(&self, o: &Self) -> Option<Ordering> {
         Some(self.cmp(o))
     }
 }
-impl Ord for Elem {
-    fn cmp(&self, o: &Elem) -> Ordering {
+impl<const P: usize> Ord for ElemP<P> {
+    fn cmp(&self, o: &Self) -> Ordering {
         fault::tick(Site::Cmp);
         (self.origin % 3).cmp(&(o.origin % 3))
     }
 }
-impl std::fmt::Debug for Elem {
+impl<const P: usize> std::fmt::Debug for ElemP<P> {
     fn fmt(&self, f: &mut std::fmt::Formatter<'_>) -> std::fmt::Result {
         write!(f, "E{}#{}", self.origin, self.serial)
     }
@@ -159,7 +164,44 @@ pub type W80 = Blob<80>;
 /// one KiB per element: a few hundred cells already cross every byte-size threshold up to the cache sizes
 pub type W1K = Blob<1024>;
 /// one page per element (element-SIZE thresholds such as size_of::<T>() >= 4096)
-pub type W4K = Blob<4096>;
+pub type W4K = Blob<4104>;      // (just above the page size: `> 4096` and `>= 4096` gates alike)
+/// a 64 KiB tile: element-size-proportional stack buffers overflow, byte thresholds in the 10^5 range are crossed by 2 cells
+pub type W64K = Blob<65544>;
+
+/// `N` machine words, alignment 8 (u64 / f64 / pointer-like layouts; an ODD number of words is what block-wise moves of
+/// two words at a time forget).  The origin is the first word, the others repeat a pattern derived from it.
+#[derive(Clone, Copy, PartialEq, Eq, Hash, Debug)]
+pub struct Words<const N: usize>(pub [u64; N]);
+impl<const N: usize> Default for Words<N> {
+    fn default() -> Self {
+        Words::of(0)
+    }
+}
+impl<const N: usize> Words<N> {
+    pub fn of(origin: u32) -> Self {
+        let mut w = [0u64; N];
+        for (i, x) in w.iter_mut().enumerate() {
+            *x = if i == 0 { origin as u64 } else { (origin as u64).wrapping_mul(0x9E37_79B9_7F4A_7C15) ^ i as u64 };
+        }
+        Words(w)
+    }
+    pub fn get(&self) -> u32 {
+        let o = self.0[0] as u32;
+        if self.0[0] <= u32::MAX as u64 && *self == Words::<N>::of(o) { o } else { 0x7EA2_0000 | (o & 0xFFFF) }
+    }
+}
+impl<const N: usize> PartialOrd for Words<N> {
+    fn partial_cmp(&self, o: &Self) -> Option<Ordering> {
+        Some(self.cmp(o))
+    }
+}
+impl<const N: usize> Ord for Words<N> {
+    fn cmp(&self, o: &Self) -> Ordering {
+        (self.get() % 3).cmp(&(o.get() % 3))
+    }
+}
+pub type W8 = Words<1>;
+pub type W24 = Words<3>;
 
 /// A zero-sized `Copy` element (like `()`): the Copy-only operations exist for it, nothing is ever dropped.
 #[derive(Clone, Copy, PartialEq, Eq, Hash, Debug, Default, PartialOrd, Ord)]
@@ -324,12 +366,12 @@ impl CellT for Tok {
     }
 }
 
-impl CellT for Elem {
+impl<const P: usize> CellT for ElemP<P> {
     const KIND: &'static str = "elem";
     const TRACKED: bool = true;
     const HAS_SERIAL: bool = true;
-    fn make(origin: u32) -> Elem {
-        Elem::new(origin)
+    fn make(origin: u32) -> Self {
+        ElemP::new(origin)
     }
     fn origin(&self) -> u32 {
         self.origin
@@ -338,7 +380,7 @@ impl CellT for Elem {
         self.serial
     }
     fn magic_ok(&self) -> bool {
-        self.magic == MAGIC
+        self.magic == MAGIC && self.pad.iter().all(|&w| w == self.origin as u64 ^ 0x5A5A_5A5A)
     }
 }
 
@@ -424,6 +466,16 @@ macro_rules! copy_ops {
             true
         }
     };
+}
+impl<const N: usize> CellT for Words<N> {
+    const KIND: &'static str = "words";
+    fn make(origin: u32) -> Self {
+        Words::of(origin)
+    }
+    fn origin(&self) -> u32 {
+        self.get()
+    }
+    copy_ops!();
 }
 impl CellT for Z0 {
     const KIND: &'static str = "z0";
